@@ -41,16 +41,17 @@ Section Subset.
   Variable sites : list site.
   Variable stores : list store.
   Variable rfacts : bool.
-  Variable render : ambient -> N -> option str -> tyobj -> prog.
+  Variable reads : list wread.
+  Variable render : ambient -> list (list N) -> N -> option str -> tyobj -> prog.
   Variable cfun : ckey -> str.
   Variable maxsize : option nat.
   Variable resets lel : bool.
 
-  Notation gen_file := (gen_file bases cname fuel sites stores rfacts render cfun maxsize resets lel).
-  Notation run_types := (run_types U bases cname fuel sites stores rfacts render cfun maxsize resets lel).
+  Notation gen_file := (gen_file bases cname fuel sites stores rfacts reads render cfun maxsize resets lel).
+  Notation run_types := (run_types U bases cname fuel sites stores rfacts reads render cfun maxsize resets lel).
 
-  Lemma gen_file_fresh cf ts memo u c ps sc o :
-    map pp_fresh (snd (fst (gen_file cf ts memo u c ps sc o))) = map pp_fresh ps.
+  Lemma gen_file_fresh cf ts I memo u c ps sc o :
+    map pp_fresh (snd (fst (gen_file cf ts I memo u c ps sc o))) = map pp_fresh ps.
   Proof.
     unfold GenState.gen_file. destruct (select bases cname fuel ts memo (obj_cls o)) as [memo1 tmpl].
     match goal with |- context [run_prog ?a ?b ?c ?v ?d ?e ?f ?g] => destruct (run_prog a b c v d e f g) as [[u1 c1] chunks] end.
@@ -68,8 +69,8 @@ Section Subset.
     induction order as [|k0 order IH]; intros memo u c ps sc o Hin Hr; [destruct Hin|].
     cbn [GenState.run_types].
     destruct (resolve_in U ins k0) as [o0|] eqn:E0.
-    - pose proof (gen_file_fresh cf ts memo u c ps sc o0) as Hf.
-      destruct (gen_file cf ts memo u c ps sc o0) as [[[[m1 u1] c1] ps1] res]. cbn [fst snd] in Hf.
+    - pose proof (gen_file_fresh cf ts ins memo u c ps sc o0) as Hf.
+      destruct (gen_file cf ts ins memo u c ps sc o0) as [[[[m1 u1] c1] ps1] res]. cbn [fst snd] in Hf.
       destruct Hin as [->|Hin].
       + destruct (run_types cf ts ins m1 u1 c1 ps1 (sc ++ [k]) order) as [[[[[m2 u2] c2] ps2] sc2] es]. cbn [snd].
         eexists. split; [left; reflexivity|]. cbn. repeat split; reflexivity.
@@ -85,7 +86,7 @@ Section Subset.
 
   Lemma single_run_entry cf ts pps ins ord args k o :
     In k ord -> resolve_in U ins k = Some o ->
-    exists e, In e (log U bases cname fuel sites stores rfacts render cfun maxsize resets lel (single_run cf ts pps ins ord args))
+    exists e, In e (log U bases cname fuel sites stores rfacts reads render cfun maxsize resets lel (single_run cf ts pps ins ord args))
               /\ e_key e = k /\ e_cfg e = ecfg cf args /\ e_tset e = ts /\ e_pps0 e = map pp_fresh pps.
   Proof.
     intros Hin Hr. unfold log, single_run, p_init. cbn [exec op_step p_gens app nth_error go_cfg go_tset go_inputs go_memo go_pps
@@ -105,23 +106,24 @@ Theorem subset_lemma
   (Hfuel : forall c, (rank c < fuel)%nat)
   (sites : list site) (stores : list store) (rfacts : bool)
   (Hsites : forallb site_ok sites = true) (Hstores : forallb (store_ok rfacts) stores = true)
-  (render : ambient -> N -> option str -> tyobj -> prog)
-  (render_pure : forall (a1 a2 : ambient) cf tmpl o, render a1 cf tmpl o = render a2 cf tmpl o)
+  (reads : list wread) (Hreads : forallb read_ok reads = true)
+  (render : ambient -> list (list N) -> N -> option str -> tyobj -> prog)
+  (render_pure : forall (a1 a2 : ambient) I cf tmpl o, render a1 I cf tmpl o = render a2 I cf tmpl o)
   (cfun : ckey -> str) (m1 m2 : option nat)
   (cf : N) (ts : list (str * str)) (pps : list pp) (args : N) (S W ordS ordW : list (list N)) (k : list N) (o : tyobj) :
   incl S W -> In k ordS -> In k ordW -> resolve_in U S k = Some o ->
   exists eS eW,
-    In eS (log U bases cname fuel sites stores rfacts render cfun m1 true false (single_run cf ts pps S ordS args)) /\
-    In eW (log U bases cname fuel sites stores rfacts render cfun m2 true false (single_run cf ts pps W ordW args)) /\
+    In eS (log U bases cname fuel sites stores rfacts reads render cfun m1 true false (single_run cf ts pps S ordS args)) /\
+    In eW (log U bases cname fuel sites stores rfacts reads render cfun m2 true false (single_run cf ts pps W ordW args)) /\
     e_key eS = k /\ e_key eW = k /\ e_tmpl eS = e_tmpl eW /\ e_text eS = e_text eW.
 Proof.
   intros Hincl HinS HinW Hr.
   pose proof (resolve_mono U S W Hincl _ _ _ Hr) as HrW. fold (resolve_in U W k) in HrW.
-  destruct (single_run_entry U bases cname fuel sites stores rfacts render cfun m1 true false cf ts pps S ordS args k o HinS Hr)
+  destruct (single_run_entry U bases cname fuel sites stores rfacts reads render cfun m1 true false cf ts pps S ordS args k o HinS Hr)
     as (eS & HeS & A1 & B1 & C1 & D1).
-  destruct (single_run_entry U bases cname fuel sites stores rfacts render cfun m2 true false cf ts pps W ordW args k o HinW HrW)
+  destruct (single_run_entry U bases cname fuel sites stores rfacts reads render cfun m2 true false cf ts pps W ordW args k o HinW HrW)
     as (eW & HeW & A2 & B2 & C2 & D2).
   exists eS, eW. split; [exact HeS|]. split; [exact HeW|]. split; [exact A1|]. split; [exact A2|].
-  apply (file_indep_lemma U bases cname fuel rank Hsingle Hrank Hfuel sites stores rfacts Hsites Hstores render render_pure cfun
+  apply (file_indep_lemma U bases cname fuel rank Hsingle Hrank Hfuel sites stores rfacts Hsites Hstores reads Hreads render render_pure cfun
            false m1 m2 _ _ eS eW HeS HeW); try congruence. left. reflexivity.
 Qed.
